@@ -92,7 +92,8 @@ def gen_inputs(ctx, rnd):
                'int a = "xy"; /* c */ b \\\n c\n', '"" "a" "" "bc"', 'L"ab" "c"', 'a.b->c <<= 2 ... 1.5e3f 0x1FuL 07 \'\\n\'', 'a\x80\xffb', '\t\x0b\x0c a']
     # many distinct identifiers (rename-toks index table), function-like macros (define)
     special += [' '.join(f'v{i}' for i in range(k)) + '\n' for k in (15, 16, 17, 18, 33, 70)]
-    special += ['#define A(x) x\nA B\n#define B 1\nB\n', '#define F( y\nF F\n#define G 2\nG G\n', 'Q\n#define Q(\n#define R r\nR\n']
+    special += ['int b, a, foo; foo = a;', 'b a c', 'c b a zz', 'b a', 'z a', 'ab aa a b zz',
+                '#define A(x) x\nA B\n#define B 1\nB\n', '#define F( y\nF F\n#define G 2\nG G\n', 'Q\n#define Q(\n#define R r\nR\n']
     rn = []
     toks = ALPHA + ['while', 'x1', '==', '<<=', '...', '1.5e3', '{', '}', ',', '"str ing"', '/* c */', '// x', '%>', '<:']
     for _ in range(60 if ctx.quick() else 1500):
@@ -174,7 +175,7 @@ def explore(ctx):
     if ctx.quick():
         # all modes on the special inputs, two random modes on the others
         def pick(i):
-            if i < 40:
+            if i < 46:
                 return modes
             ms = rnd.sample(modes, 2)
             if '#' in inputs[i] and rnd.random() < 0.7:
